@@ -386,6 +386,9 @@ var c01StmtAlphabet = []string{
 	// errors raised while building a literal or an argument list abort the statement
 	"w = {\"a\": 1 / 0}; println(\"after\", w)", "w = {1 / 0: 1}; println(\"after\", w)", "w = [v, 1 / 0]; println(\"after\", w)", "w = h(v, 1 / 0); println(\"after\", w)",
 	"w = {\"a\": {\"b\": [error(\"deep\")]}}; println(\"after\", w)", "w = len([1 % 0]); println(\"after\")", "w = {}; w[1 / 0] = 5; println(\"after\", w)", "w = [1]; w[0] = 1 / 0; println(\"after\", w)", "w = [1, 2][1 / 0:]; println(\"after\")",
+	// the error that comes out is the one that was raised (its message observed through catch)
+	"println(catch([1, 2][error(\"e1\"):]).value)", "println(catch([1, 2][0:error(\"e2\")]).value)", "println(catch(if error(\"e3\") { 1 }).value)", "println(catch([1, 2][error(\"e4\")]).value)",
+	"println(catch({1: 2}[error(\"e5\")]).value)", "println(catch(-error(\"e6\")).value)", "println(catch(for error(\"e7\") { 1 }).value)", "println(catch(h(error(\"e8\"), 1)).value)", "println(catch(len(error(\"e9\"))).value)",
 }
 
 func c01Stmt(c *core.Ctx, do func(fam string, inputs ...string) bool) bool {
